@@ -10,6 +10,8 @@ CONSTANTS
   FileLayer = TRUE
   SilentRelease = FALSE
   ForgetsHandle = FALSE
+  MaxMigrate = 2
+  RegisterOnce = FALSE
 SPECIFICATION FairSpec
-INVARIANTS Safe NoStrand
+INVARIANTS Safe NoStrand SlotIsLatest
 PROPERTIES Live NoLeakLive
